@@ -1,5 +1,7 @@
 package props
 
+// C18 — varint, zig-zag, tag and skip primitives, all 64-bit values.
+
 import (
 	"github.com/philpearl/plenc/plenccore"
 	"vharness/vrt"
@@ -18,6 +20,43 @@ func refVarint(buf []byte, v uint64) []byte {
 	return buf
 }
 
+// refVarintLen: number of 7-bit groups needed.
+func refVarintLen(v uint64) int {
+	n := 1
+	for i := 0; i < 9; i++ {
+		v >>= 7
+		if v == 0 {
+			return n
+		}
+		n++
+	}
+	return n
+}
+
+// refReadVarint decodes a varint per the protobuf spec: at most 10 bytes, the
+// 10th carrying at most one bit. n>0: bytes consumed; n==0: truncated;
+// n<0: overflow / too long.
+func refReadVarint(data []byte) (v uint64, n int) {
+	var shift uint
+	for i := 0; i < len(data); i++ {
+		b := data[i]
+		if i == 9 {
+			if b > 1 {
+				return 0, -1
+			}
+			return v | uint64(b)<<63, 10
+		}
+		if b < 0x80 {
+			return v | uint64(b)<<shift, i + 1
+		}
+		v |= uint64(b&0x7f) << shift
+		shift += 7
+	}
+	return 0, 0
+}
+
+func refZigZag(n int64) uint64 { return uint64(n<<1) ^ uint64(n>>63) }
+
 // H18_VarUintRoundTrip: append/read/size agree with each other and with the
 // reference encoding for every uint64.
 func H18_VarUintRoundTrip() {
@@ -32,3 +71,155 @@ func H18_VarUintRoundTrip() {
 	vrt.Assert("read value", got == v)
 	vrt.Assert("read length", n == len(enc))
 }
+
+// H18_VarUintPrefix: appending to a non-empty buffer (with and without spare
+// capacity) keeps the prefix and appends the same bytes.
+func H18_VarUintPrefix() {
+	v := vrt.U64("v")
+	pl := 1 + vrt.Choice("prefixlen", 3)
+	prefix := vrt.Bytes("p", pl)
+	spare := vrt.Choice("spare", 3) * 5 // 0, 5, 10 bytes of spare capacity
+	buf := make([]byte, pl, pl+spare)
+	copy(buf, prefix)
+	out := plenccore.AppendVarUint(buf, v)
+	ref := refVarint(nil, v)
+	vrt.Assert("length", len(out) == pl+len(ref))
+	if len(out) == pl+len(ref) {
+		vrt.Assert("prefix kept", vrt.BytesEq(out[:pl], prefix))
+		vrt.Assert("suffix", vrt.BytesEq(out[pl:], ref))
+		vrt.ObserveBytes("out", out)
+	}
+	vrt.Assert("input prefix untouched", vrt.BytesEq(buf[:pl], prefix))
+}
+
+// H18_ZigZag: bijection and agreement with the protobuf formula.
+func H18_ZigZag() {
+	i := vrt.I64("i")
+	u := vrt.U64("u")
+	z := plenccore.ZigZag(i)
+	vrt.Observe("z", z)
+	vrt.Assert("zigzag==protobuf", z == refZigZag(i))
+	vrt.Assert("zagzig(zigzag(i))==i", plenccore.ZagZig(z) == i)
+	vrt.Assert("zigzag(zagzig(u))==u", plenccore.ZigZag(plenccore.ZagZig(u)) == u)
+	// small magnitudes map to small codes: 0,-1,1,-2,... -> 0,1,2,3,...
+	vrt.Assert("non-negative -> even", vrt.Implies(i >= 0, z == uint64(i)*2))
+	vrt.Assert("negative -> odd", vrt.Implies(i < 0, z == uint64(-(i+1))*2+1))
+}
+
+// H18_VarIntSizeClasses: -2^(7k-1) <= i < 2^(7k-1)  <=>  SizeVarInt(i) <= k.
+func H18_VarIntSizeClasses() {
+	i := vrt.I64("i")
+	s := plenccore.SizeVarInt(i)
+	vrt.Observe("size", uint64(s))
+	vrt.Assert("1..10", vrt.And(s >= 1, s <= 10))
+	for k := 1; k <= 9; k++ {
+		lim := int64(1) << uint(7*k-1)
+		in := vrt.And(i >= -lim, i < lim)
+		vrt.Assert("class", in == (s <= k))
+	}
+	enc := plenccore.AppendVarInt(nil, i)
+	vrt.Assert("size==len", s == len(enc))
+	got, n := plenccore.ReadVarInt(enc)
+	vrt.Assert("read value", got == i)
+	vrt.Assert("read length", n == len(enc))
+	vrt.Assert("bytes==reference", vrt.BytesEq(enc, refVarint(nil, refZigZag(i))))
+}
+
+func tagHarness(maxIdxBits uint) {
+	wt := plenccore.WireType(vrt.I8("wt"))
+	idx := vrt.Int("idx")
+	vrt.Assume(vrt.And(wt >= 0, wt <= 7))
+	vrt.Assume(vrt.And(idx >= 0, idx <= 1<<maxIdxBits))
+	enc := plenccore.AppendTag(nil, wt, idx)
+	vrt.ObserveBytes("tag", enc)
+	vrt.Assert("bytes==varint(idx<<3|wt)", vrt.BytesEq(enc, refVarint(nil, uint64(idx)<<3|uint64(wt))))
+	vrt.Assert("size==len", plenccore.SizeTag(wt, idx) == len(enc))
+	gwt, gidx, n := plenccore.ReadTag(enc)
+	vrt.Assert("wire type", gwt == wt)
+	vrt.Assert("index", gidx == idx)
+	vrt.Assert("length", n == len(enc))
+}
+
+// H18_Tag: tags round-trip for every wire type and index up to 2^28.
+func H18_Tag() { tagHarness(28) }
+
+// H18_TagWide_T: the same up to 2^60 (thorough tier).
+func H18_TagWide_T() { tagHarness(60) }
+
+// H18_ReadVarUintMalformed: on arbitrary bytes ReadVarUint agrees with the
+// reference decoder on value, consumed length and on which inputs are bad.
+func readMalformed(maxLen int) {
+	n := vrt.Choice("len", maxLen+1)
+	data := vrt.Bytes("d", n)
+	v, k := plenccore.ReadVarUint(data)
+	rv, rk := refReadVarint(data)
+	vrt.Observe("k", uint64(int64(k)))
+	vrt.Assert("bad inputs rejected", (rk <= 0) == (k <= 0))
+	vrt.Assert("consumed", vrt.Implies(rk > 0, k == rk))
+	vrt.Assert("value", vrt.Implies(rk > 0, v == rv))
+	vrt.Assert("never over-reads", k <= len(data))
+}
+
+func H18_ReadVarUintMalformed() { readMalformed(4) }
+
+func H18_ReadVarUintMalformed_T() { readMalformed(11) }
+
+// refSkip is the reference field skipper. ok=false: malformed/truncated.
+func refSkip(data []byte, wt int) (n int, ok bool) {
+	switch wt {
+	case 0:
+		for i := 0; i < len(data) && i < 10; i++ {
+			if data[i] < 0x80 {
+				return i + 1, true
+			}
+		}
+		return 0, false
+	case 1:
+		return 8, len(data) >= 8
+	case 5:
+		return 4, len(data) >= 4
+	case 2:
+		l, k := refReadVarint(data)
+		if k <= 0 || l > uint64(len(data)-k) {
+			return 0, false
+		}
+		return k + int(l), true
+	case 3:
+		count, k := refReadVarint(data)
+		if k <= 0 {
+			return 0, false
+		}
+		off := k
+		for i := uint64(0); i < count; i++ {
+			if off >= len(data) {
+				return 0, false
+			}
+			l, k := refReadVarint(data[off:])
+			if k <= 0 || l > uint64(len(data)-off-k) {
+				return 0, false
+			}
+			off += k + int(l)
+		}
+		return off, true
+	}
+	return 0, false
+}
+
+func skipHarness(maxLen int) {
+	wt := vrt.Choice("wt", 8)
+	n := vrt.Choice("len", maxLen+1)
+	data := vrt.Bytes("d", n)
+	vrt.LoopBound(maxLen + 3)
+	got, err := plenccore.Skip(data, plenccore.WireType(wt))
+	rn, ok := refSkip(data, wt)
+	vrt.Observe("got", uint64(int64(got)))
+	vrt.Assert("malformed or truncated => error", vrt.Implies(!ok, err != nil))
+	vrt.Assert("nil error => within input", vrt.Implies(err == nil, vrt.And(got > 0, got <= len(data))))
+	vrt.Assert("well-formed => exact length", vrt.Implies(ok, vrt.And(err == nil, got == rn)))
+}
+
+// H18_Skip: every wire type, every byte string up to 5 bytes (quick).
+func H18_Skip() { skipHarness(5) }
+
+// H18_Skip_T: up to 8 bytes (thorough).
+func H18_Skip_T() { skipHarness(8) }
